@@ -58,7 +58,7 @@ fn plan(prop: &str, tier: &str) -> Plan {
     }
     match prop {
         "C06" => {
-            p.random_cases = if quick { 480 } else { 20_000 };
+            p.random_cases = if quick { 480 } else { 40_000 };
             p.long_cases = 0;
             p.big_cases = 0;
             p.enum_empty = vec![];
@@ -81,14 +81,15 @@ fn plan(prop: &str, tier: &str) -> Plan {
         "C13" => {
             p.enum_empty = vec![];
             p.enum_shapes = vec![];
-            p.random_cases = if quick { 8000 } else { 100_000 };
-            p.long_cases = if quick { 0 } else { 10_000 };
+            p.random_cases = if quick { 8000 } else { 300_000 };
+            p.long_cases = if quick { 0 } else { 20_000 };
             p.big_cases = 0;
         }
         "C09" | "C10" | "C11" | "C07" | "C08" => {
             if !quick {
-                p.random_cases = 160_000;
-                p.long_cases = 16_000;
+                // cheap per case: go three times deeper than the structural properties
+                p.random_cases = 480_000;
+                p.long_cases = 32_000;
             }
         }
         _ => {}
